@@ -328,12 +328,33 @@ def iter_arg(ctx, i=0):
     return None, None
 
 
+def range_iter(ctx, v, t):
+    """Iterator value of a std::ops::Range aggregate (None when v is not one)."""
+    eng, st = ctx.eng, ctx.st
+    if v[0] == "agg" and v[1] is not None and t.get("path", "") == "std::ops::Range":
+        it = {"k": "int", "bits": 64, "signed": False}
+        ft = t["variants"][0]["fields"][0].get("ty") if t.get("variants") else None
+        ity = eng.ty(ft) if ft is not None else it
+        s = eng.read(st, v[1] + (("f", 0),), ity, "start")
+        e = eng.read(st, v[1] + (("f", 1),), ity, "end")
+        if s[0] == "int" and e[0] == "int":
+            return ("iter", (("hi", e[1]), ("kind", "range"), ("lo", s[1])))
+    return None
+
+
 def m_iter_adapter(ctx):
     """map / filter / rev / copied / cloned / skip_while ...: the count can only shrink or stay."""
     it, _ = iter_arg(ctx)
+    name = ctx.path.split("::")[-1]
+    if it is None:
+        it = range_iter(ctx, ctx.args[0], ctx.argtys[0])
     if it is None:
         return [ctx.ret(("iter", (("kind", "unknown"),)))]
-    name = ctx.path.split("::")[-1]
+    if name == "rev" and it_get(it, "kind") == "range":
+        return [ctx.ret(it_with(it, rev=not it_get(it, "rev")))]
+    if it_get(it, "kind") == "range" and name not in ("map", "copied", "cloned", "inspect", "enumerate", "peekable", "fuse", "by_ref"):
+        # a filtered / skipped range still yields values of the range; next() of the adapter cannot narrow it further
+        return [ctx.ret(it_with(it, kind="range-sub"))]
     if name in ("filter", "skip_while", "take_while", "filter_map", "skip", "step_by"):
         c = it_get(it, "count")
         if c is not None:
@@ -381,14 +402,9 @@ def m_into_iter(ctx):
         if x is not None and x[0] == "iter":
             return [ctx.ret(x)]
         p = t.get("path", "")
-        if p == "std::ops::Range":
-            it = {"k": "int", "bits": 64, "signed": False}
-            ft = t["variants"][0]["fields"][0].get("ty") if t.get("variants") else None
-            ity = eng.ty(ft) if ft is not None else it
-            s = eng.read(st, v[1] + (("f", 0),), ity, "start")
-            e = eng.read(st, v[1] + (("f", 1),), ity, "end")
-            if s[0] == "int" and e[0] == "int":
-                return [ctx.ret(("iter", (("hi", e[1]), ("kind", "range"), ("lo", s[1]))))]
+        ri = range_iter(ctx, v, t)
+        if ri is not None:
+            return [ctx.ret(ri)]
         if p == "std::vec::Vec":
             L = eng.len_field(st, v[1])
             return [ctx.ret(("iter", (("count", L), ("kind", "vec"))))]
@@ -416,16 +432,17 @@ def m_next(ctx):
     if it is not None:
         kind = it_get(it, "kind")
         cnt = it_get(it, "count")
-        if kind == "range":
+        if kind in ("range", "range-sub"):
             lo, hi = it_get(it, "lo"), it_get(it, "hi")
             if lo is not None and hi is not None and pty.get("k") == "int":
                 x = eng.fresh_int(pty, "i")
                 some.add(lo - x)
                 some.add(x - hi + 1)
                 some.env[ppath] = V_int(x)
-                if ipath is not None:
-                    some.env[ipath] = it_with(it, lo=x + 1)
-                none.add(hi - lo)
+                if ipath is not None and kind == "range":
+                    some.env[ipath] = it_with(it, hi=x) if it_get(it, "rev") else it_with(it, lo=x + 1)
+                if kind == "range":
+                    none.add(hi - lo)
                 return [s for s in (some, none) if not s.dead]
         if cnt is not None:
             some.add(Lin.const(1) - cnt)
